@@ -545,6 +545,19 @@ def dispatch(ctx):
                   f'line-relaxation table says {sorted(want)}',
                   ctx.where(sm, sf), sample={'code': code,
                                              'kernels': sorted(called)})
+    # smoothing always relaxes: no return before the kernels, no path from the
+    # entry to the exit without a kernel call (an early exit for special
+    # data, e.g. a zero source, makes the smoother non-affine)
+    # (the dispatch table above shows that every code 0..7 reaches at least
+    # one kernel; what remains is that nothing leaves the function earlier)
+    last = max(c.lineno for c in kcalls)
+    rets = [n for n in ast.walk(sf) if isinstance(n, (ast.Return, ast.Raise))
+            and n.lineno < last and au.enclosing_func(n) is sf]
+    ctx.check('C03.S6.dispatch', 'smoothing: every path relaxes',
+              not rets, 'smoothing() can leave before a Gauss-Seidel kernel '
+              'is called'
+              + (f' (`{au.stext(au.enclosing(rets[0], ast.If) or rets[0])[:60]}`)'
+                 if rets else ''), ctx.where(sm, rets[0] if rets else sf))
     # who may call the kernels
     for rel in ctx.repo.package_files():
         m = ctx.repo.mod(rel)
